@@ -52,6 +52,7 @@ def h_dest(ctx, N, mode, prefix=(), limits=2, reject=False, disposition=False):
     script = list(prefix)
     md_ind = False
     finished_seen = False
+    cancelled_after_finish = False
     eof_seen = False
     pending_fin_ind = None  # codes of the last Transaction-Finished indication, to match the Finished PDU
     for i in range(len(script) + N):
@@ -64,6 +65,8 @@ def h_dest(ctx, N, mode, prefix=(), limits=2, reject=False, disposition=False):
         hdst.end_if_other_property(ctx, o)
         ev = sc.events[-1]
         kinds = [e[0] for e in o.ind]
+        if finished_seen and (ev[0] == "CANCEL" or (ev[0] == "EOF" and len(ev) > 1 and ev[1] != 0) or o.faults):
+            cancelled_after_finish = True  # cancel request, EOF(cancel) or a declared fault: a further completion event
         # --- gating: a disabled indication is never delivered
         for e in o.ind:
             if e[0] == "segment_recv":
@@ -80,6 +83,7 @@ def h_dest(ctx, N, mode, prefix=(), limits=2, reject=False, disposition=False):
         if was_idle and not sc.rig.idle or (was_idle and "metadata_recv" in kinds):
             md_ind = False
             finished_seen = False
+            cancelled_after_finish = False
             eof_seen = False
         for e in o.ind:
             if e[0] == "metadata_recv":
@@ -90,7 +94,13 @@ def h_dest(ctx, N, mode, prefix=(), limits=2, reject=False, disposition=False):
                 ctx.prop("nothing_after_transaction_finished", not finished_seen,
                          lambda: {"sig": f"{e[0]} after Transaction-Finished"})
             if e[0] == "finished":
+                if finished_seen:
+                    # a second Transaction-Finished for the same transaction needs a second completion event:
+                    # a cancellation (request, EOF(cancel) or a declared fault) after the first one
+                    ctx.prop("one_indication_per_completion", cancelled_after_finish,
+                             lambda: {"sig": "Transaction-Finished repeated without a further completion event"})
                 finished_seen = True
+                cancelled_after_finish = False
                 pending_fin_ind = (e[2], e[3], e[4])
         if kinds and "finished" in kinds:
             ctx.prop("transaction_finished_is_last_in_call", kinds[-1] == "finished" or kinds.count("finished") == 1
